@@ -45,6 +45,14 @@ Third round (c) - 8 of 18 missed at first:
 * **C18-c** (instrumented `_trigger_event` stores the timestamp after the connect handler): application connect handlers were trivial. They now refuse, kick the client, enter rooms, emit, or pause while the transport is lost.
 * **C19-c** (`connected_event.set()` before `connected = False`): needed (1) a pre-emption point *after* `Event.set()/clear()` in the thread kernel, (2) a consumer step that becomes runnable the moment the client notices the loss and then calls emit(), (3) the clause "an emit()/call() released from its wait after the final disconnect began must not return normally", plus delivery of every emit on a healthy connection.
 * **C20-c** (enter_room split into a server-level check and a manager access): needed a third application thread making a non-terminating call on the same session id, and a second client keeping the namespace alive (access granularity only: inside the manager's own methods such calls are not atomic with respect to a termination, which the property does not quantify over).
+
+Fourth round (d) - 3 of 18 missed at first:
+
+* **C08-d** (a callable `auth` is resolved once in connect() and the value stored, so reconnections send the stale payload): C08's check runs clients with reconnection disabled; reconnection parameters are C10's subject, whose callable returned a constant. It now returns a fresh value per evaluation and C10 requires that a later connection never repeats an earlier connection's value (`tools/seeded.py run C08-d --check C10`).
+* **C14-d** (AsyncClient keeps pending callbacks across a transport loss when it is going to reconnect, Client drops them): no sub-scenario of the differential check had a *wire-level* server together with automatic reconnection. New sub-scenario `checks/c14x.py`: scripted server, emits with callbacks, call(), server events, ACKs (right, repeated, from an earlier connection, never issued), transport losses with automatic reconnection.
+* **C15-d** (a non-reentrant lock around ack-id generation and around the application callback in the threaded PubSubManager): needed an application callback that emits with another callback from inside the listener (`chained_cb`), and a `threading` shim so that locks created by the code under test block through the simulator's kernel - the deadlock then shows as a listener that stops, not as a hung simulator.
+
+While writing C12-d the sub-agent remarked that an event literally named `'*'` reaches a catch-all handler without the event name prepended on the *unchanged* tree; C13 was extended with that event name, reproduced it, and it was repaired (fix 9495251). Extending C04 to the msgpack serializer and the namespace name `'*'` then found the analogous defect for namespaces (fix d2beb05).
 """
 
 
